@@ -288,7 +288,7 @@ fn check_c11(pe: &PointEval, item: u64, acc: &mut Acc) {
     }
     acc.set("D_values", format!("{}", su.g.d));
     // formula on the returned u and v
-    let cf = su.tv.cached_factor;
+    let cf = su.norm;
     let want = (1.0 / out.u).powf(d_half) * (1.0 / out.v).powf(su.omega) * cf;
     if want.is_finite() && out.jacobian.is_finite() && want != 0.0 {
         let rel = ((out.jacobian - want) / want).abs();
@@ -439,7 +439,7 @@ fn check_c02(pe: &PointEval, item: u64, acc: &mut Acc) {
             qf(&csum)
         ));
     }
-    let ratio_ln = out.jacobian.ln() - su.tv.cached_factor.ln();
+    let ratio_ln = out.jacobian.ln() - su.norm.ln();
     let lo = -d_half * nt.ln() - su.omega * ln_csum;
     let hi = su.omega * (nt.ln() - ln_cmin);
     let s2 = slack * (1.0 + d_half + su.omega);
